@@ -7,9 +7,10 @@
    are sums of record lengths.  MD5 and the command semantics are Section variables.
 
    [mode]: [Repaired] is the working tree with proposed_fixes/C06-follow-start-over.diff applied
-   (a resync from position 0 recreates the file AND clears dataset, hooks and aofsz);
+   (a resync from position 0 recreates the file AND clears dataset, hooks and aofsz; "fully intact"
+   requires the matching part to be the whole file);
    [Pinned] is the code as found (small log: nothing is touched; first block differs: only the
-   file is recreated). *)
+   file is recreated; a matching part ending on a record boundary is "fully intact"). *)
 From Coq Require Import List ZArith Bool.
 From T38 Require Import Base.Bytes.
 Import ListNotations.
@@ -104,7 +105,7 @@ Section Follow.
   | CSError                     (* followCheckSome returns an error; follow() retries after 1 s *)
   | CSFuel.
 
-  Definition check_some (f : file) (faofsz : Z) (l : file) : cs_result * list (Z * bool) :=
+  Definition check_some (md : mode) (f : file) (faofsz : Z) (l : file) : cs_result * list (Z * bool) :=
     if faofsz <? csz then (CSStartOverSmall, [])
     else
       let fb := fbytes f in
@@ -117,7 +118,11 @@ Section Follow.
         | Some (pos, probes) =>
             match last_value_end f 0 O pos with
             | None => (CSError, probes)
-            | Some (p, keep) => if p =? pos then (CSIntact pos, probes) else (CSTruncate p keep, probes)
+            | Some (p, keep) =>
+                (* "aof fully intact": Pinned tests pos == fullpos only (a matching part that merely ENDS on a
+                   record boundary is taken for the whole file); Repaired also requires pos == aofsz *)
+                if (p =? pos) && (match md with Repaired => pos =? faofsz | Pinned => true end)
+                then (CSIntact pos, probes) else (CSTruncate p keep, probes)
             end
         end.
 
@@ -153,7 +158,7 @@ Section Follow.
   (* followStep from the start up to and including the AOF command and the first caught-up test *)
   Definition connect (md : mode) (l : file) (f : fol) : fol :=
     let aofsize := flen l in
-    let '(res, _) := check_some (f_file f) (f_aofsz f) l in
+    let '(res, _) := check_some md (f_file f) (f_aofsz f) l in
     let st3 :=         (* Some (file, mem, aofsz, pos) or None on error *)
       match res with
       | CSStartOverSmall =>
